@@ -20,10 +20,21 @@ for c in CHECKS.values():
         k = (d['pkg'], bool(d.get('race')))
         if k not in seen:
             seen.add(k)
-            print(d['pkg'], '-race' if d.get('race') else '')
+            print(d['pkg'], 'overlay' if d.get('overlay_main') else '-', '-race' if d.get('race') else '')
 P
-while read -r d race; do
+while read -r d ov race; do
   [ -d "$d" ] || continue
-  go test -c -tags verif -vet=off $race -o /dev/null ./$d || { echo "setup: build of $d failed"; exit 1; }
+  ovflag=""
+  if [ "$ov" = overlay ]; then
+    # a package main holding only tests: the repository's main package files are laid over it (as ./check does)
+    python3 - "$d" > ../.work/setup-overlay-$d.json <<'P'
+import glob, json, os, sys
+d = sys.argv[1]
+print(json.dumps({"Replace": {os.path.join(os.getcwd(), d, "zz_repo_" + os.path.basename(f)): f
+                              for f in sorted(glob.glob("/repo/*.go")) if not f.endswith("_test.go")}}))
+P
+    ovflag="-overlay ../.work/setup-overlay-$d.json"
+  fi
+  go test -c -tags verif -vet=off $race $ovflag -o /dev/null ./$d || { echo "setup: build of $d failed"; exit 1; }
 done < ../.work/setup-parts.txt
 echo "setup done"
